@@ -173,6 +173,9 @@ def chunk_resp(chunk, acc):
                         acc.states += 1
                         for body in BODIES if n <= 1 and version == b"HTTP/1.1" else BODIES[:2]:
                             raw = H.serialize_response(status, reason, list(hs), body, version=version)
+                            if (status + len(body)) % 2:
+                                # an unrelated request was parsed just before (half of the cases)
+                                call(c2.parse_raw_http, b"POST /earlier?x=1 HTTP/1.1\r\nHost: e\r\n\r\nbody")
                             got = call(c2.parse_raw_http, raw)
                             acc.transitions += 1
                             exp = {"status": status, "reason": reason, "headers": dict(hs), "body": body}
@@ -181,6 +184,11 @@ def chunk_resp(chunk, acc):
                                 acc.fail("C16/response/exception", {"kind": "response", "raw": raw.hex()}, js(exp), got if isinstance(got, str) else type(got).__name__)
                                 continue
                             g = {"status": got.status, "reason": bytes(got.reason), "headers": {bytes(k): bytes(v) for k, v in got.headers.items()}, "body": bytes(got.body)}
+                            if getattr(got, "request", None) is not None:
+                                # a parsed response consists of exactly its own parts
+                                acc.case(raw, nontrivial=True, outcome="request-attached")
+                                acc.fail("C16/response/carries-an-unrelated-request", {"kind": "response", "raw": raw.hex(), "after_request": True}, "request = None", repr(got.request)[:200])
+                                continue
                             try:
                                 got.headers[b"__poison__"] = b"h"
                             except Exception:
